@@ -33,34 +33,15 @@ AllCalls ==
 
 Dead == [live |-> FALSE, lines |-> <<>>]
 NoFile == [exists |-> FALSE, text |-> <<>>]
-Ret(k, v) == [k |-> k, v |-> v]
-None == Ret("none", <<>>)
 
 Init == /\ obj = [s \in Slots |-> Dead] /\ disk = [d \in Files |-> NoFile]
-        /\ want = [d \in Files |-> <<>>] /\ ret = None
+        /\ want = [d \in Files |-> <<>>] /\ ret = TFNone
 
-Live(s) == obj[s].live
-SetObj(s, lines) == obj' = [obj EXCEPT ![s] = [live |-> TRUE, lines |-> lines]]
-
+Cur == [obj |-> obj, disk |-> disk, want |-> want]
 Call(c) ==
-  CASE c[1] = "new" -> SetObj(c[2], <<>>) /\ ret' = None /\ UNCHANGED <<disk, want>>
-    [] c[1] = "set" -> Live(c[2]) /\ SetObj(c[2], c[3]) /\ ret' = None /\ UNCHANGED <<disk, want>>
-    [] c[1] = "append" -> /\ Live(c[2]) /\ Len(obj[c[2]].lines) < MaxLines
-                          /\ SetObj(c[2], Append(obj[c[2]].lines, c[3])) /\ ret' = None /\ UNCHANGED <<disk, want>>
-    [] c[1] = "write" -> /\ Live(c[2])
-                         /\ disk' = [disk EXCEPT ![c[3]] = [exists |-> TRUE, text |-> WriteText(obj[c[2]].lines)]]
-                         /\ want' = [want EXCEPT ![c[3]] = WantAfterWrite(obj[c[2]].lines)]
-                         /\ ret' = None /\ UNCHANGED obj
-    [] c[1] = "read" -> /\ disk[c[3]].exists
-                        /\ SetObj(c[2], SplitLines(disk[c[3]].text)) /\ ret' = None /\ UNCHANGED <<disk, want>>
-    [] c[1] = "copy" -> /\ Live(c[2]) /\ c[2] # c[3]
-                        /\ SetObj(c[3], obj[c[2]].lines) /\ ret' = None /\ UNCHANGED <<disk, want>>
-    [] c[1] = "str" -> Live(c[2]) /\ ret' = Ret("text", StrText(obj[c[2]].lines)) /\ UNCHANGED <<obj, disk, want>>
-    [] c[1] = "writeiter" -> /\ disk' = [disk EXCEPT ![c[2]] = [exists |-> TRUE, text |-> WriteIterText(c[3])]]
-                             /\ want' = [want EXCEPT ![c[2]] = c[3]]
-                             /\ ret' = None /\ UNCHANGED obj
-    [] c[1] = "readiter" -> /\ disk[c[2]].exists
-                            /\ ret' = Ret("items", ReadIterItems(disk[c[2]].text)) /\ UNCHANGED <<obj, disk, want>>
+  /\ (c[1] = "append" => Len(obj[c[2]].lines) < MaxLines)
+  /\ LET r == TFApply(Cur, c) IN
+     r.en /\ obj' = r.obj /\ disk' = r.disk /\ want' = r.want /\ ret' = r.ret
 
 Next == \E c \in AllCalls : Call(c)
 Spec == Init /\ [][Next]_vars
